@@ -39,6 +39,17 @@ for line in sys.stdin:
 					ops.append(bytes.fromhex(h).decode('ascii'))
 			for x in ops:
 				out += ' %d%d%d%d%d%d' % (a < x, a > x, a == x, a != x, a <= x, a >= x)
+			# the same date compared again and again with operands that are dropped at once (texts built on the spot, floats)
+			tmp = []
+			tt = [min(253402300799, max(0, int(parts[1]) + d)) for d in (-1, 0, 1, 0, -1, 1, 0)]
+			kept = [bytes(Date(t)) for t in tt]
+			# each operand exists only for its comparison; the next one (another instant) is likely to be built at the same address
+			lt = ['%d' % (a < k.decode('ascii')) for k in kept]
+			eq = ['%d' % (a == k.decode('ascii')) for k in kept]
+			gt = ['%d' % (a > float(t) + 0.0) for t in tt]
+			for x, y, z in zip(lt, eq, gt):
+				tmp.extend((x, y, z))
+			out += ' ' + ''.join(tmp)
 			# the other views of the instant: datetime and time struct, and dates built from them
 			dt, st = a.datetime, a.gmtime
 			out += ' %s %d %d %s %d' % (dt.isoformat(), int(Date(dt)), a == dt, '-'.join(str(v) for v in tuple(st)[:6]), int(Date(st)))
